@@ -479,6 +479,33 @@ def _bool_tensor(rng, ctx):
     return ("cmp", rng.choice(["gt", "ge", "eq"]), t, ("num", float(rng.choice([0, 1])), "real")), set(n for n, _ in t[1])
 
 
+def _gen_slice_value(rng, ctx, size, free, keys):
+    """A Slice (or a Slice composed with a Slice: Slice-into-Slice substitution) selecting positions of an input
+    of size `size`, bound to a context name whose size equals the number of selected positions.
+    Returns (recipe, name) or None."""
+    for _ in range(16):
+        m = rng.choice(list(ctx))
+        if m in free or m in keys:
+            continue
+        L = ctx[m]
+        if rng.random() < 0.5:
+            start, step = rng.randrange(size), rng.choice([1, 1, 2])
+            if len(range(start, size, step)) == L:
+                return ("slice", m, start, size, step, size), m
+            continue
+        # outer slice over a temporary name of size L1, inner slice maps m (size L) into it
+        s2, st2 = rng.choice([0, 0, 1]), rng.choice([1, 2])
+        L1 = s2 + (L - 1) * st2 + 1 + rng.choice([0, 0, 1])
+        if len(range(s2, L1, st2)) != L:
+            continue
+        start, step = rng.choice([0, 1]), rng.choice([1, 2])
+        stop = start + (L1 - 1) * step + 1
+        if stop > size or len(range(start, stop, step)) != L1:
+            continue
+        return ("subs", ("slice", "s_", start, stop, step, size), (("s_", ("slice", m, s2, L1, st2, L1)),)), m
+    return None
+
+
 def gen_ext(rng, ctx, depth, kind="real", opts=None):
     """Extended generator (see the table above).  Returns (recipe, free_names)."""
     opts = opts or {}
@@ -660,7 +687,11 @@ def gen_ext(rng, ctx, depth, kind="real", opts=None):
             size = ctx[k_]
             r2 = rng.random()
             cands = [n for n, s_ in ctx.items() if s_ == size and n != k_]
-            if r2 < 0.35 or not cands:
+            sl = _gen_slice_value(rng, ctx, size, free, keys) if r2 >= 0.55 else None
+            if sl is not None:
+                subs.append((k_, sl[0]))
+                free.add(sl[1])
+            elif r2 < 0.35 or not cands:
                 subs.append((k_, ("num", rng.randrange(size), size)))
             elif r2 < 0.7:
                 n = rng.choice(cands)
